@@ -1057,6 +1057,44 @@ def run(run, tier, seed, replay=None):
                           f"non-nearest float fields in stream {name}", dict(kind="spec-validation", stream=name), found_input=False)
         return outs
 
+    def do_fpath(name, nums):
+        t0 = time.time()
+        fouts = core.run_worker_sharded("c17", nums, common=dict(kind="fpath"))
+        fstrs = []
+        for n, o in zip(nums, fouts):
+            rd, dc = o["read"], o["dec"]
+            if Fraction(rd[0]) * Fraction(10) ** (rd[1] + rd[2]) != Fraction(n[1]) * Fraction(10) ** (n[2] + n[3]):
+                raise RuntimeError(f"harness: {n} was built as {rd}")
+            fstrs.append(f"({cz(rd[0])}, {cz(rd[1])}, {cz(rd[2])}, ({cbool(dc[0])}, {cz(dc[1])}, {cz(dc[2])}), {copt(o['out'], c_dbl)})")
+        both = core.coq_eval_cases("C17", name.replace("-", "_"), IMPORTS, "fpath_case", fstrs, "run_cases chk_fpath_both",
+                                   chunk=max(50, -(-len(fstrs) // (2 * core.NPROC))))
+        fbad = sorted([(i, c % 4) for i, c in both if c % 4], key=lambda t: (len(json.dumps(nums[t[0]])), t[0]))
+        props = [second_rounding(n) for n in nums]
+        run.stream(name, len(nums), len({json.dumps(n[:4]) for n in nums if n[1] != 0}),
+                   rule="hdl21.sim.proto.export_float on one Prefixed: the Decimal handed to float() digit for digit against the model, the double "
+                        "against nearest_double; non-trivial = non-zero; distinct by (number, prefix)",
+                   over_28_digits=sum(1 for p_ in props if p_["digits"] > 28),
+                   beside_midpoint_over_28_digits=sum(1 for p_ in props if p_["digits"] > 28 and p_["near"]),
+                   changed_by_a_28_digit_detour=sum(1 for p_ in props if p_["dr28"]),
+                   results_matching_a_28_digit_detour=sum(1 for _, c in both if c // 4), wall_s=round(time.time() - t0, 1))
+        v1 = [i for i, c in fbad if c == 1]
+        if v1:
+            i = v1[0]
+            run.violation(f"C17:export_float:{json.dumps(nums[i])}",
+                          f"export_float({json.dumps(nums[i])}) = {fouts[i]['out']} is not the double nearest to the prefixed value "
+                          f"({len(v1)} such values; {sum(1 for _, c in both if c // 4)} results are what a 28-digit decimal context gives)",
+                          dict(kind="impl-violates-spec", stream="float-path", num=nums[i], impl=fouts[i], failing_cases=len(v1),
+                               reproducer="harness/impl/c17.py do_fpath(num): hdl21.sim.proto.export_float(Prefixed)"))
+        elif fbad:
+            i = fbad[0][0]
+            run.violation("C17:float-path:tie", f"model of Prefixed.__float__ / export_float and implementation differ on {json.dumps(nums[i])}: {fouts[i]}",
+                          dict(kind="correspondence-broken", stream="float-path", num=nums[i], impl=fouts[i], disagreeing_cases=len(fbad),
+                               theorem="C17_export_float_one_rounding"), found_input=False)
+        run.sample(dict(stream=name, case=nums[0], impl=fouts[0]))
+
+    if replay is not None and replay.get("num"):
+        do_fpath("replay", [replay["num"]])
+        return
     if replay is not None and replay.get("case"):
         outs = do("replay", [replay["case"]])
         run.sample(dict(stream="replay", case=replay["case"], impl=outs[0]))
@@ -1137,6 +1175,20 @@ def run(run, tier, seed, replay=None):
               box="each of the 18 float fields x nesting context (top, in sweep, in Monte-Carlo, both orders) x side of the midpoint, "
                   "Scalar forms rotating; each prefix x prefixed form x side; whole Sims with such a value in every float field")
     run.sample(dict(stream="float-midpoints", case=cs[0], impl=outs[0]))
+    # ---------------------------------------------------------------- the float path itself: export_float on single Prefixed values
+    nums, seen = [], set()
+    for c in cs + corpus() + exhaustive_small():
+        for s_ in c["sims"]:
+            for _, a in s_["items"]:
+                if a[0] in ANALYSES:
+                    for _, _, n in float_fields(a):
+                        k = json.dumps(n)
+                        if n[0] == "pre" and k not in seen:
+                            seen.add(k)
+                            nums.append(n)
+    for k in range(300 if quick else 6000):
+        nums.append(gen_num(core.rng(seed, "C17", "fpath", k)))
+    do_fpath("float-path", nums)
     # ---------------------------------------------------------------- structured random (valid inputs)
     n_rand = 700 if quick else 16000
     cs = [gen_case(core.rng(seed, "C17", "random", k), k) for k in range(n_rand)]
